@@ -8,6 +8,22 @@ _NOTE = ('trusted base: the simulator itself (SimLoop, SimKernel, fake ZeroMQ) '
 _TECH = 'deterministic simulation with fault injection'
 
 META = {
+    'C07': {
+        'level': 'exploration',
+        'text': 'real listening CircusSockets (127.0.0.1 port 0, unix paths) '
+                'owned by the real Arbiter, watchers with and without '
+                'use_sockets referring to them in both syntaxes and any '
+                'letter case, histories of deaths, restart, reload, incr / '
+                'decr, kill over several worker generations; at every '
+                'simulated process creation the descriptor table the child '
+                'would have after exec is computed from the daemon\'s real '
+                'descriptor table and compared with the socket inodes '
+                'recorded at start-up; bind / listen / close call counts, a '
+                'real connect() and listsockets at quiescent points',
+        'note': _NOTE + '; so_reuseport sockets (bound per worker by design) '
+                'are not generated',
+        'technique': _TECH + ' (child descriptor table computed at every '
+                     'simulated exec)'},
     'C12': {
         'level': 'exploration',
         'text': 'daemons loaded from generated ini files and driven through '
